@@ -310,7 +310,7 @@ var dirNames = func() []string {
 
 // lexical classes of values; command, file and interval slots stay harmless
 var values = []string{"", "0", "1", "-1", "5", "99999999999999999999", "65536", "65535", "255", "256", "2147483647", "2147483648", "4294967295", "4294967296", "9223372036854775807", "9223372036854775808", "-2147483649", "1e9", "0x10", "007", "1s", "0s", "-5s", "10m", "none", "off", "on", "*", "/", "/x", "x", ".php", "1MB", "4KB", "0B", "-1KB", "1GB", "9999999GB", "KB",
-	"missing.txt", "ht.txt", "cert.pem", "key.pem", "page.html", "dir", "./", "a.log", "stdout", "stderr", "syslog", "http://127.0.0.1:9", "https://127.0.0.1:9", "127.0.0.1:9", "localhost:9-12", "localhost:70000", "localhost:65533-65535", "localhost:65535-65535", "localhost:65535", "localhost:12-9", "localhost:65534-65536", "localhost:0-2", "localhost:1-", "localhost:-5", "localhost:5-5-5", "unix:/nonexistent.sock", "srv://x.test", "://", "h:p:q",
+	"missing.txt", "ht.txt", "htpasswd=ht.txt", "htpasswd=missing.txt", "htpasswd=bad-ht.txt", "htpasswd=", "htpasswd=dir", "Casketfile", "./Casketfile", "bad-ht.txt", "cert.pem", "key.pem", "page.html", "dir", "./", "a.log", "stdout", "stderr", "syslog", "http://127.0.0.1:9", "https://127.0.0.1:9", "127.0.0.1:9", "localhost:9-12", "localhost:70000", "localhost:65533-65535", "localhost:65535-65535", "localhost:65535", "localhost:12-9", "localhost:65534-65536", "localhost:0-2", "localhost:1-", "localhost:-5", "localhost:5-5-5", "unix:/nonexistent.sock", "srv://x.test", "://", "h:p:q",
 	"^(.*)$", "(", "[a-", "{path}", "{>X}", "{1}", "{$HOME}", "text/plain", "tls1.2", "tls1.0", "ssl3", "p256", "rsa2048", "X25519", "ECDHE-RSA-AES128-GCM-SHA256", "GET", "get", "301", "999", "abc", "is", "not", "match", "true", "false", "nonexistent-command-xyz", "&", "ü", strings.Repeat("a", 300), "a b", "\"", "255.255.255.0", "ffff::", "300.1.1.1", "round_robin", "header", "ip_hash", "random", "startup", "shutdown", "certrenew", "bogus_event", "zip", "tar.gz", "rar", "lines", "text", "binary", "request", "require", "verify_if_given", "ca.pem"}
 
 func genValue(t *rapid.T, lb string) string {
@@ -475,6 +475,8 @@ func genCase(t *rapid.T) *Case {
 func setupFiles() {
 	// files some arguments name; everything is relative to the sandbox cwd
 	os.WriteFile("ht.txt", []byte("bob:{SHA}W6ph5Mm5Pz8GgiULbPgzG37mj9g=\n"), 0o644)
+	os.WriteFile("bad-ht.txt", []byte("this line has no colon\n"), 0o644)
+	os.WriteFile("Casketfile", []byte("# the file the inputs claim to come from\n"), 0o644)
 	os.WriteFile("page.html", []byte("<html>page</html>"), 0o644)
 	os.WriteFile("404.html", []byte("<html>404</html>"), 0o644)
 	os.MkdirAll("dir", 0o755)
@@ -520,6 +522,8 @@ var constants = []string{
 	"localhost:0 {\n\ttls {\n\t\tprotocols\n\t}\n\tzz_end\n}\n",
 	"localhost:0 {\n\tlimits {\n\t\tbody \"\" 5\n\t}\n\tzz_end\n}\n",
 	"localhost:0 {\n\tbasicauth /s bob htpasswd=missing.txt\n\tzz_end\n}\n",
+	"localhost:0 {\n\tbasicauth /s bob htpasswd=bad-ht.txt\n\tzz_end\n}\n",
+	"localhost:0 {\n\troot Casketfile\n\tzz_end\n}\n", "localhost:0 {\n\troot ./Casketfile\n\tzz_end\n}\n", "localhost:0 {\n\troot missing-dir\n\tzz_end\n}\n",
 	"localhost:0 {\n\tbasicauth /s bob htpasswd=ht.txt\n\tzz_end\n}\n",
 	"localhost:0 {\n\terrors {\n\t\trotate_size 5\n\t}\n\tzz_end\n}\n",
 	"localhost:0 {\n\terrors visible {\n\t\trotate_keep 5\n\t}\n\tzz_end\n}\n",
@@ -550,6 +554,29 @@ func runText(c *textCase, hard func(string)) error {
 		if v.pan != nil {
 			return fmt.Errorf("directive setup panicked under -validate: %v\nconfiguration:\n%s\n%s", v.pan, c.Text, v.stack)
 		}
+	}
+	// and once for real: a start runs callbacks that a validation skips
+	if !strings.HasPrefix(c.Text, "localhost:0 {") {
+		return nil
+	}
+	var inst *casket.Instance
+	s := guarded(func() error {
+		var e error
+		inst, e = casket.Start(input)
+		return e
+	})
+	if inst != nil && s.err == nil && !s.hung {
+		srv.Stop(inst)
+	}
+	if s.slow {
+		return fmt.Errorf("HARNESS: start took more than 20 s but did return (starved machine): no verdict")
+	}
+	if s.hung {
+		hard(fmt.Sprintf("starting the configuration did not return (20 s on a responsive machine, 120 s on a starved one):\n%s", c.Text))
+		return fmt.Errorf("HANG")
+	}
+	if s.pan != nil {
+		return fmt.Errorf("casket.Start panicked: %v\nconfiguration:\n%s\n%s", s.pan, c.Text, s.stack)
 	}
 	return nil
 }
